@@ -121,7 +121,7 @@ PROPS["C19"] = dict(
         dict(name="trees", run="^TestC19ExhaustiveTrees$", shards=(8, 16), timeout=(200, 1200)),
         dict(name="rapid", run="^TestC19Rapid$", checks=(5000, 100000), shards=(2, 16), timeout=(200, 1200)),
         dict(name="deep", run="^TestC19Deep$", shards=(4, 16), timeout=(200, 1200)),
-        dict(name="concurrent", run="^TestC19Concurrent$", checks=(6, 25), shards=(1, 2), timeout=(200, 1200), shrinktime="5s", serial=True),
+        dict(name="concurrent", run="^TestC19Concurrent$", checks=(10, 25), shards=(1, 2), timeout=(200, 1200), shrinktime="5s", serial=True),
         dict(name="concurrent_race", run="^TestC19Concurrent$", checks=(0, 10), shards=(1, 2), timeout=(200, 1200), shrinktime="5s",
              race=(False, True), enabled=(False, True), env={"VERIF_HAMMER_MAX_ROUNDS": "500"}),
     ],
